@@ -340,3 +340,39 @@ func Batch(args []string) int {
 	}
 	return 0
 }
+
+// CompileBatch: in ndjson {Id, Src}; out ndjson {id, ok, error}.  Each source is
+// compiled on its own (no include path).
+func CompileBatch(args []string) int {
+	f, err := os.Open(args[0])
+	if err != nil {
+		fmt.Fprintln(os.Stderr, err)
+		return 2
+	}
+	defer f.Close()
+	out, _ := os.Create(args[1])
+	defer out.Close()
+	dec := json.NewDecoder(f)
+	enc := json.NewEncoder(out)
+	for dec.More() {
+		var c struct{ Id, Src string }
+		if err := dec.Decode(&c); err != nil {
+			fmt.Fprintln(os.Stderr, err)
+			return 2
+		}
+		res := M{"id": c.Id, "ok": true, "error": ""}
+		func() {
+			defer func() {
+				if x := recover(); x != nil {
+					res["ok"], res["error"] = false, fmt.Sprint("panic: ", x)
+				}
+			}()
+			var p syntax.Parser
+			if _, _, _, err := p.ParseSourceBytes([]byte(c.Src), "p.mro", nil, false); err != nil {
+				res["ok"], res["error"] = false, err.Error()
+			}
+		}()
+		enc.Encode(res)
+	}
+	return 0
+}
